@@ -223,6 +223,10 @@ fn worker_count(args: &Args) -> usize {
     )
 }
 
+/// Runs of every simulator that are executed a second time at the end of a batch (same process, one
+/// thread) and must reproduce their event-log hash exactly.
+const DETERMINISM_SAMPLE: usize = 48;
+
 struct BatchOut {
     stats: Stats,
     runs: usize,
@@ -299,7 +303,7 @@ fn run_batch(prop: &str, master: u64, jobs: &[(Sim, usize)], workers: usize, kno
                                 std::process::exit(2);
                             }
                         };
-                        if keep_hashes {
+                        if keep_hashes || i < DETERMINISM_SAMPLE {
                             local_hashes.push((i, res.hash.clone()));
                         }
                         if res.stats.samples.is_empty() && local_samples.is_empty() {
@@ -525,6 +529,18 @@ fn cmd_check(args: &Args) -> i32 {
     let deadline = args.get("max-seconds").and_then(|v| v.parse::<u64>().ok()).map(|s| t0 + Duration::from_secs(s));
     let out = run_batch(&prop, master, &jobs, workers, &known, false, deadline);
 
+    // determinism sample: re-execute the first runs of every simulator and compare event-log hashes
+    let mut resampled = 0usize;
+    if out.failures.is_empty() {
+        for (sim, i, h) in out.hashes.iter().filter(|x| x.1 < DETERMINISM_SAMPLE) {
+            let again = run_one(*sim, &prop, *i, run_seed(master, *sim, *i), None, false);
+            resampled += 1;
+            if &again.hash != h && again.violation.is_none() {
+                eprintln!("harness error: {} run {i} (seed {}) is not reproducible: event-log hash {h} then {} - a source of nondeterminism is not behind a seam", sim.name(), run_seed(master, *sim, *i), again.hash);
+                return 2;
+            }
+        }
+    }
     for (sig, (what, n)) in &out.known_hits {
         println!("KNOWN-FINDING: property={prop} {what} [signature {sig}, hit in {n} runs]");
     }
@@ -626,6 +642,7 @@ fn cmd_check(args: &Args) -> i32 {
         .with("probes", probes)
         .with("counters", counters)
         .with("components", components())
+        .with("determinism_sample", J::s(format!("{resampled} runs re-executed at the end of the batch, event-log hashes identical")))
         .with("exhaustive", J::Bool(false));
     if !out.stats.tuples.is_empty() {
         coverage.set(
